@@ -29,6 +29,41 @@ pub open spec fn calls_sub(b: &naga::Block, i: int, k: int, c: int) -> bool {
 pub open spec fn calls_at(b: &naga::Block, i: int, c: int) -> bool {
     0 <= i < block_stmts(b).len() && (stmt_call(&stmt_at(b, i), c) || exists|k: int| #[trigger] calls_sub(b, i, k, c))
 }
+// unfolding lemmas for block_calls (used by the proofs of units `stages` and `cost`)
+pub proof fn lemma_block_calls(b: &naga::Block, c: int)
+    ensures block_calls(b, c) <==> exists|i: int| #[trigger] calls_at(b, i, c),
+{
+    if block_calls(b, c) {
+        if exists|i: int| 0 <= i < block_stmts(b).len() && stmt_call(&#[trigger] stmt_at(b, i), c) {
+            let i = choose|i: int| 0 <= i < block_stmts(b).len() && stmt_call(&#[trigger] stmt_at(b, i), c);
+            assert(calls_at(b, i, c));
+        } else {
+            let (i, k) = choose|i: int, k: int| 0 <= i < block_stmts(b).len() && 0 <= k < nsub(b, i)
+                && block_height(&#[trigger] subblk(b, i, k)) < block_height(b) && block_calls(&subblk(b, i, k), c);
+            assert(calls_sub(b, i, k, c));
+            assert(calls_at(b, i, c));
+        }
+    }
+    if exists|i: int| #[trigger] calls_at(b, i, c) {
+        let i = choose|i: int| #[trigger] calls_at(b, i, c);
+        if stmt_call(&stmt_at(b, i), c) {
+        } else {
+            let k = choose|k: int| #[trigger] calls_sub(b, i, k, c);
+            axiom_block_height(b, i, k);
+            assert(block_height(&subblk(b, i, k)) < block_height(b));
+        }
+    }
+}
+
+pub proof fn lemma_sub_calls(m: &naga::Module, b: &naga::Block, i: int, k: int, c: int)
+    requires 0 <= i < block_stmts(b).len(), 0 <= k < sub_blocks(&block_stmts(b)[i]).len(),
+        block_calls(&sub_blocks(&block_stmts(b)[i])[k], c),
+    ensures calls_sub(b, i, k, c), calls_at(b, i, c), block_calls(b, c),
+{
+    assert(calls_sub(b, i, k, c));
+    assert(calls_at(b, i, c));
+    lemma_block_calls(b, c);
+}
 // ---------------- functions ----------------
 pub open spec fn nfun(m: &naga::Module) -> int { arena_seq(&m.functions).len() as int }
 pub open spec fn fun(m: &naga::Module, i: int) -> naga::Function { arena_seq(&m.functions)[i] }
